@@ -77,7 +77,10 @@ func (m *omModel) json() string {
 	return b.String()
 }
 
-var omAlphabet = []string{"a", "b", "c", "d", "A", "", "é", "k\"q"}
+// the last ones: characters on which quoting conventions differ (JSON escapes vs
+// Go escapes vs HTML-safe escapes): control characters, DEL, a line separator,
+// markup characters, a non-printable rune outside the BMP.
+var omAlphabet = []string{"a", "b", "c", "d", "A", "", "é", "k\"q", "bell\a\x01", "del\x7f", "ls\u2028<&>", "tag\U000e0001", "back\\slash\ttab"}
 
 // omWide is used by "wide" histories: enough distinct keys for library
 // routines to leave their small-input fast paths (sort.Slice is an insertion
@@ -400,7 +403,11 @@ func runOmCase(c omCase) (key, what string, step int, ex *Exec) {
 					return fail("error", "UnmarshalJSON("+doc+"): "+err.Error())
 				}
 				for j, k := range op.Keys {
-					tref.set(k, op.Vals[j])
+					// the key as a JSON decoder reads it back from the document
+					kb, _ := json.Marshal(k)
+					dk := k
+					_ = json.Unmarshal(kb, &dk)
+					tref.set(dk, op.Vals[j])
 				}
 				maps[ti], refs[ti] = target, tref
 			case "iterate_re", "map_re", "filter_re":
